@@ -108,6 +108,15 @@ def hubStep (st : HubSt) (ops : List String) (impl : String) : HubSt × String :
     match st.q.take (natArg r) with
     | some (q, m) => ({ st with q }, s!"nil got={m.src}:{m.payload.length} len={q.queue.length}")
     | none => (st, "blocks")
+  | ["q-recv-done"] =>
+    -- the select may take the context's case or the queue's: follow the implementation, but a message is never lost
+    if impl.startsWith "nil " then
+      match st.q.take 999999 with
+      | some (q, m) =>
+        let st := { st with q := q.cbReturn 999999 }
+        (st, s!"nil got={m.src}:{m.payload.length} {qObs st}")
+      | none => (st, s!"ctx {qObs st}")
+    else (st, s!"ctx {qObs st}")
   | ["q-cancel", r] => let st := { st with qwait := st.qwait.filter (· != natArg r), q := st.q.step (.cancel (natArg r)) }; (st, s!"ctx {qObs st}")
   | ["q-release", r] => let st := { st with q := st.q.cbReturn (natArg r) }; (st, s!"ok {qObs st}")
   | ["q-purge"] => let (q, n) := st.q.purge; let st := { st with q }; (st, s!"{n} {qObs st}")
